@@ -390,7 +390,13 @@ impl C08 {
     fn run(&self, w: &mut Work, scn: &Scn8, rep: &mut Report) -> Vec<(usize, Finding)> {
         let mut found = Vec::new();
         let mut start = 0usize;
+        let mut hang_deaths = 0;
         while start < scn.steps.len() {
+            if hang_deaths >= 3 {
+                // a tree that hangs: three instances from this scenario are enough
+                rep.count("cut.scenario_after_three_hangs", 1);
+                break;
+            }
             let mut req = w.req();
             req.sim.faults = scn.faults.clone();
             req.steps = scn.steps[start..].iter().enumerate().map(|(i, s)| s.to_step_occ(&w.root, start + i)).collect();
@@ -405,6 +411,9 @@ impl C08 {
                 }
                 if o.died_in == Some(i) {
                     let f = classify_death(&scn.steps[gi], &o);
+                    if f.sig.starts_with("hang:") {
+                        hang_deaths += 1;
+                    }
                     // rulegen's own exit(1) on an unusable template is its documented error path
                     if !(scn.steps[gi].class == "rulegen" && o.end == "exit:1") {
                         found.push((gi, f));
@@ -472,7 +481,18 @@ impl C08 {
     /// then delta-debug the bytes of each remaining input file.
     fn minimise(&self, w: &mut Work, scn0: &Scn8, si: usize, sig: &str) -> (Scn8, u64) {
         let mut execs = 0u64;
-        let budget = 400u64;
+        // every trial that still hangs costs a whole CPU budget: few trials for hangs, and
+        // under the short budget (the caller re-confirms the result under the full one)
+        let hang = sig.starts_with("hang:");
+        let budget = if hang { 40u64 } else { 400u64 };
+        w.short_cpu_budget = hang;
+        let res = self.minimise_inner(w, scn0, si, sig, budget, &mut execs);
+        w.short_cpu_budget = false;
+        (res, execs)
+    }
+
+    fn minimise_inner(&self, w: &mut Work, scn0: &Scn8, si: usize, sig: &str, budget: u64, execs_out: &mut u64) -> Scn8 {
+        let mut execs = 0u64;
         let mut scn = scn0.clone();
         let mut si = si;
         // read faults are drawn per seam call, so removing steps shifts them: try without first
@@ -564,7 +584,8 @@ impl C08 {
                 }
             }
         }
-        (scn, execs)
+        *execs_out = execs;
+        scn
     }
 
     fn gen(&self, seed: u64, rep: &mut Report) -> Scn8 {
@@ -891,17 +912,27 @@ impl Check for C08 {
             sigs_done.push(f.sig.clone());
             // every reported failure must replay: confirm by re-execution first
             let mut cexecs = 0;
-            if !self.has(w, &s, &f.sig, &mut cexecs) {
-                rep.execs += cexecs;
+            w.full_cpu_budget = true;
+            let confirmed = self.has(w, &s, &f.sig, &mut cexecs);
+            w.full_cpu_budget = false;
+            rep.execs += cexecs;
+            if !confirmed {
                 rep.count("harness.unconfirmed_findings", 1);
                 continue;
             }
-            rep.execs += cexecs;
             if !w.seen.insert(f.sig.clone()) {
                 rep.violations.push(Violation { signature: f.sig.clone(), what: f.what.clone(), replay: self.to_json(&s), shrink_execs: 0, minimised: false });
                 continue;
             }
-            let (m, execs) = self.minimise(w, &s, si, &f.sig);
+            let (mut m, mut execs) = self.minimise(w, &s, si, &f.sig);
+            if f.sig.starts_with("hang:") {
+                // shrinking ran under the short CPU budget: the result must exhaust the full one
+                w.full_cpu_budget = true;
+                if !self.has(w, &m, &f.sig, &mut execs) {
+                    m = s.clone();
+                }
+                w.full_cpu_budget = false;
+            }
             rep.execs += execs;
             rep.violations.push(Violation { signature: f.sig.clone(), what: f.what.clone(), replay: self.to_json(&m), shrink_execs: execs, minimised: true });
         }
